@@ -836,7 +836,125 @@ def run(ctx):
     from . import fmtrules
     fmtrules.rule_directive_bounds(ctx)
     rule_exit_path(ctx)
+    rule_index_sites(ctx)
     ctx.assume("capacity conversions (usize -> u32 ids/offsets) are out of scope: inputs are below 4 GiB")
     ctx.assume("the ~100 `let .. else { unreachable!(..query-produced..) }` tests of query results in check/mod.rs, "
                "termination, and 'locations lie inside the file' are NOT decided (run-time quantities)")
     return {}
+
+
+# positional indexing (`v[i]`, `v[a..b]`, `s[a..b]` on Vec / slice / array / str / String) in the hand-written front end: each
+# site panics when the index is out of range (or not a character boundary). key = short function name -> (sites, why in range)
+INDEX_SITES = {
+    "zydeco_session::source::graph::SourceCycleDetector::<'graph>::visit":
+        (1, "start = position() of an element of `sources`; `dependencies` holds one edge per source below the top, so start <= len"),
+    "zydeco_session::source::documentation::RepositoryDocumentationEntry::<'_>::term_source":
+        (1, "cursor pair of a span the parser recorded for this very source text"),
+    "zydeco_session::source::warning::SourceWarningSite::<'_>::warning_source":
+        (1, "range of a warning computed from this very source text (lexer token range)"),
+    "zydeco_statics::arena::KindArena::value":
+        (1, "offset minted by this arena's own push"),
+    "zydeco_statics::arena::NormalizedAnnotations::with_parallel":
+        (2, "windows(2) yields slices of length 2"),
+    "zydeco_statics::arena::SourceProvenance::<Source, Typed>::record_compact":
+        (1, "category.index() < the fixed number of categories the array is built with"),
+    "zydeco_statics::arena::SourceProvenance::<Source, Typed>::source_compact":
+        (1, "as record_compact"),
+    "zydeco_statics::arena::TermFactsArena::get":
+        (1, "index minted by upsert's push"),
+    "zydeco_statics::arena::TermFactsArena::iter":
+        (1, "index minted by upsert's push"),
+    "zydeco_statics::arena::TermFactsArena::upsert":
+        (1, "index minted by upsert's push"),
+    "<zydeco_utils::with::With<zydeco_statics::environment::TyEnv, zydeco_surface::bitter::syntax::PatId> as zydeco_statics::check::Tyck<'a>>::tyck_inner_k":
+        (1, "body_index starts at items.len() and is only set to an enumerate() index of items"),
+    "<zydeco_utils::with::With<zydeco_statics::environment::TyEnv, zydeco_surface::bitter::syntax::TermId> as zydeco_statics::check::Tyck<'a>>::tyck_inner_k":
+        (1, "as the pattern judgment"),
+    "zydeco_statics::check::DeferredValueFieldCandidate::materialize_k":
+        (1, "position numbered by FieldProjectionResolver::product_components_k along the same Prod spine that materialized_product_components_k enumerates (erasure-arity rule; F49 was the disagreement)"),
+    "zydeco_statics::check::ExistentialProjectionPattern::check_k":
+        (3, "slot_index is an enumerate() index of opening.slots; body_patterns[0] under len() == 1"),
+    "zydeco_statics::normalize::<impl zydeco_statics::syntax::TypeId>::subst_absts":
+        (2, "position() of an element of assignments; position + 1 <= len"),
+    "zydeco_surface::bitter::desugar::ExistentialParameterForm::desugar":
+        (1, "patterns[0] under the guard patterns.len() == 1"),
+    "zydeco_surface::textual::arena::impl_span_arena::<impl core::ops::index::Index<&zydeco_surface::textual::syntax::EntityId> for zydeco_surface::textual::arena::SpanArena>::index":
+        (1, "index_of(..).expect: a missing span id is the documented panic of this accessor, ids come from the same parse"),
+    "zydeco_surface::textual::arena::impl_span_arena::<impl zydeco_surface::textual::arena::SpanArena>::replace":
+        (1, "as SpanArena::index"),
+    "zydeco_surface::textual::intention::SurfaceIntentions::record_source_layout":
+        (1, "source_id was minted from source_layouts.len() just before the push"),
+    "zydeco_surface::textual::pretty::PrettyFormatter::<'arena>::infix_chain":
+        (4, "operands receives the left operand before the loop, so operands[0] and operands[1..] exist"),
+    "zydeco_surface::textual::trivia::comment::CommentBlocks::<'source>::block_text":
+        (1, "min(indentation(line), ..) <= line.len() and counts ASCII / one-byte whitespace"),
+    "zydeco_surface::textual::trivia::comment::CommentBlocks::<'source>::line_text":
+        (1, "range of a lexer token of this source"),
+    "zydeco_surface::textual::trivia::comment::CommentBlocks::<'source>::opening_indentation":
+        (2, "rfind('\\n') + 1 and a token start: both character boundaries of this source, in order"),
+    "zydeco_surface::textual::trivia::comment::CommentCapture::new":
+        (6, "first_trailing = position() in anchors (same length as comments) or comments.len(); index from enumerate() of the prefix"),
+    "zydeco_surface::textual::trivia::comment::LineSeparation::whitespace_prefix":
+        (1, "end found by char_indices of this string"),
+    "zydeco_surface::textual::trivia::comment::LineSeparation::whitespace_suffix":
+        (1, "start = index + len_utf8 of a character found by char_indices"),
+    "zydeco_syntax::impls::remove_prefix":
+        (1, "strips the one-byte ASCII sigil the token definition requires (str-slices rule)"),
+    "zydeco_utils::arena::impls::<impl zydeco_utils::arena::ArenaAccess<&Id, <Scope as zydeco_utils::arena::ArenaSchema<Id>>::Item> for zydeco_utils::arena::ArenaIndexed<Scope, Id>>::get":
+        (1, "arena-internal: the id's offset is bounds-tested first"),
+    "zydeco_utils::arena::impls::<impl zydeco_utils::arena::ArenaIndexed<Scope, Id>>::iter":
+        (1, "arena-internal: enumerate() index"),
+    "zydeco_utils::arena::impls::<impl zydeco_utils::arena::ArenaIndexed<Scope, Id>>::replace_existing":
+        (1, "arena-internal: documented panic for an id this arena did not mint"),
+    "zydeco_utils::arena::impls::<impl zydeco_utils::arena::ArenaPaged<Scope, Id>>::insert_new":
+        (2, "arena-internal: the page is pushed before it is indexed"),
+    "zydeco_utils::arena::impls::<impl zydeco_utils::arena::ArenaPagedAssoc<Id, T>>::insert_new":
+        (2, "arena-internal: the page is pushed before it is indexed"),
+    "zydeco_utils::span::FileInfo::trans_span1":
+        (1, "str-slices rule (line starts recorded from this text)"),
+    "zydeco_utils::span::FileInfo::trans_span2":
+        (2, "binary search result - 1 over line_starts, which always holds the start 0"),
+}
+
+
+def rule_index_sites(ctx):
+    rule = "index-sites"
+    facts = ctx.facts
+    ctx.rule(rule, "every positional index or range slice (`v[i]`, `v[a..]`, `s[a..b]` on Vec / slice / array / str / String) in the "
+                   "hand-written code of the front-end crates (syntax, surface, statics, session, utils; generated lexer / parser / query "
+                   "code excluded) is inventoried with the reason its index is in range; a new site, or one more site in an inventoried "
+                   "function, is reported: an out-of-range index is a panic, not a diagnostic")
+    seen, locs = {}, {}
+    n_fns = 0
+    for fn, bd in sorted(facts.bodies().items()):
+        if "::tests::" in fn or "{closure" in fn:
+            continue
+        f0 = bd["loc"][0]
+        if not f0.startswith(("lang/syntax/", "lang/surface/", "lang/statics/", "lang/session/", "lang/utils/")) or f0.endswith("lexer.rs"):
+            continue
+        if bd.get("expn") or re.search(r"::_::|builder::Builder_|update_fields$", fn):
+            continue
+        h = facts.hir(fn)
+        if not h:
+            continue
+        n_fns += 1
+        for x in H.walk(h["body"]):
+            if H.kind(x) != "Index":
+                continue
+            base = x.get("base") if isinstance(x.get("base"), dict) else x.get("e") if isinstance(x.get("e"), dict) else {}
+            t0 = re.sub(r"^&(mut )?", "", base.get("ty") or "?")
+            if not re.match(r"(alloc::vec::Vec|\[|alloc::collections::vec_deque|im::vector|smallvec|str\b|alloc::string::String|alloc::boxed::Box<\[)", t0):
+                continue
+            key = M.short_fn(fn)
+            seen[key] = seen.get(key, 0) + 1
+            locs.setdefault(key, [f0, x.get("ln")])
+    for key, cnt in sorted(seen.items()):
+        want = INDEX_SITES.get(key)
+        if want is None or cnt > want[0]:
+            ctx.violation(rule, key + (":extra" if want else ""), "%s indexes a vector / slice / string by position at a site that is not in "
+                          "the audited inventory (%d site(s), %d audited): an index out of range, or a byte offset inside a character, "
+                          "panics instead of reporting a diagnostic" % (key, cnt, want[0] if want else 0), locs[key])
+        else:
+            ctx.ok(rule, key, {"sites": cnt, "in_range_because": want[1]})
+    ctx.floor(rule, "front-end functions inspected", n_fns, 1500)
+    ctx.floor(rule, "positional index sites classified", sum(seen.values()), 40)
